@@ -6,8 +6,10 @@ package stun
 import (
 	"errors"
 	"net"
+	"net/netip"
 	"net/url"
 	"strconv"
+	"strings"
 )
 
 var (
@@ -167,6 +169,12 @@ func ParseURI(raw string) (*URI, error) { //nolint:gocognit,cyclop
 
 	if uri.Host == "" {
 		return nil, ErrHost
+	}
+	if strings.HasPrefix(rawParts.Opaque, "[") {
+		// RFC 7064 / 7065: a bracketed host is an IP literal (RFC 3986 section 3.2.2).
+		if _, ipErr := netip.ParseAddr(uri.Host); ipErr != nil {
+			return nil, ErrHost
+		}
 	}
 
 	if uri.Port, err = strconv.Atoi(rawPort); err != nil || uri.Port < 0 || uri.Port > 65535 {
